@@ -1120,4 +1120,32 @@ RULE = RULE + ("  Streams zsh-model / zsh-model-names: the same trees (+ options
                "values, bin names with a space / non-ASCII; names with quotes, brackets, colons, spaces; sibling names that "
                "are prefixes of each other; colliding bin names) on which the script of the extracted zsh generator model "
                "must equal the real script byte for byte.")
+TECHNIQUE = TECHNIQUE + ("; zsh: byte-exact model of shells/zsh.rs (the lookup by bin name modelled as the search it is) with "
+                         "totality, exact-lookup, path-coverage and per-level mention theorems, the script compared byte for byte")
+LEVEL_TEXT = (LEVEL_TEXT +
+              "  zsh (round 2): an executable Gallina transcription of shells/zsh.rs (generate, subcommand_details, "
+              "subcommands_of, get_subcommands_of, parser_of, get_args_of, write_opts_of, write_flags_of, "
+              "write_positionals_of, value_completion, arg_conflicts; every expect a visible None; the recursion through "
+              "parser_of fuelled) is proved total and deterministic for every linked tree with a bin name: the lookup by bin "
+              "name is sound and complete on every tree (the expects on parser_of are dead) and, when no command name contains "
+              "a space and sibling names are distinct, returns exactly the node whose bin name was looked up (siblings such "
+              "as add / add-all included), so the recursion computes a function that is structural in the tree.  In that "
+              "class the file contains, for EVERY path of names or visible aliases at every depth, the arm label of the last "
+              "word followed by the _arguments block of the node the path leads to, nested in the arms of the words before; "
+              "every block has a spec line for every short / long spelling the accessors return for an option (the primary "
+              "and every visible alias when the primary exists), for the short, long and every visible alias of a flag, for "
+              "every single-valued positional, carries every non-hidden possible value on every line of an option that "
+              "requires a value and on positional lines, and the two lines leading to the subcommands; for every node the "
+              "file has its _<bin>_commands function with an entry per name and visible alias of every subcommand.  The "
+              "recorded findings alias-without-primary and zsh-optional-value and a subcommand name with a space (lookup "
+              "returns another node: its flag is nowhere in the file; replayed) are proved class boundaries.  The model's "
+              "script is compared byte for byte with the real generator's on every generated tree on every run.")
+LEVEL_NOTE = ("Partial: nushell has no generator model (token oracle only); fish (two levels), PowerShell, elvish and zsh "
+              "have byte-exact generator models with theorems but are not installed (their scripts are modelled and analysed, "
+              "not run); bash itself is validated by execution, not proved; Command::build and its text side are tied "
+              "differentially (built-tree dump, byte-exact scripts; that build never exhausts its fuel IS proved); that build "
+              "yields a linked tree is a hypothesis of the zsh and bash theorems (tied by the built-tree dump); zsh: "
+              "conflicts_with, value_names, value_terminator and last are outside the model (no spec format expresses them), "
+              "multi-valued positionals after a catch-all are skipped by design; char::is_uppercase is a parameter of the "
+              "PowerShell model; known findings (see known_findings.json) are outside the proved class.")
 # ---- end zsh generator model ----
